@@ -149,6 +149,14 @@ def build_tree(root, case):
             continue
         body = b"\x00\x01\x02binary\xff\xfe" if f["kind"] == "binary" else "content of a file\n"
         how = f["how"]
+        if how == "snippet":
+            # the tags sit in an SPDX snippet beyond the 4 KiB window; the marker starts f["snip"] bytes before a multiple of
+            # 4096 (so it may straddle a block boundary of any chunked reader)
+            assert f["kind"] == "text"
+            k, j = f.get("snip", [1, 0])
+            lead = 4096 * k - j
+            filler = ("filler line\n" * (lead // 12 + 1))[: lead - 1] + "\n"
+            body = filler + "SPDX-SnippetBegin\n" + header_text(f) + "SPDX-SnippetEnd\n" + body
         if how in ("header", "header+global"):
             assert f["kind"] == "text"
             body = header_text(f) + "\n" + body
@@ -160,7 +168,10 @@ def build_tree(root, case):
                 item = ["[[annotations]]", "path = %s" % toml_str(glob_escape(p))]
                 if how == "header+global":
                     item.append('precedence = "aggregate"')
-                if gc:
+                if f.get("emptycop"):
+                    # an empty string is not a copyright notice (clause (a)): the file still lacks one
+                    item.append('SPDX-FileCopyrightText = %s' % f["emptycop"])
+                elif gc:
                     item.append("SPDX-FileCopyrightText = [%s]" % ", ".join(
                         toml_str("%d Global Holder %d" % (1990 + i, i)) for i in range(gc)))
                 if ge:
@@ -574,8 +585,13 @@ def compliant_case(rng, nfiles=None):
         if glob == "dep5" and " " not in p:
             hows += ["global"]
         how = rng.choice(hows)
+        if kind == "text" and how == "header" and rng.random() < 0.12:
+            how = "snippet"
         ne = 1 if (how == "global" and glob == "dep5") else rng.randint(1, 3)
         f = mkfile(p, [rand_expr(rng, pool) for _ in range(ne)], cop=rng.randint(1, 2), how=how, kind=kind, style=style_for(p))
+        if how == "snippet":
+            f["snip"] = [rng.randint(1, 3), rng.choice([0, 0, rng.randint(1, 16), rng.randint(1, 16), rng.randint(17, 200)])]
+            f["style"] = "py"
         if how == "header+global":
             f["gcop"] = rng.randint(0, 1)
             f["gexprs"] = [rand_expr(rng, pool) for _ in range(rng.randint(0, 2))]
@@ -603,7 +619,7 @@ def compliant_case(rng, nfiles=None):
 
 
 DEFECTS = ["missing", "unused", "bad-used", "bad-provided", "deprecated", "noext", "nocop", "nolic", "readerr", "noboth",
-           "wrongcase", "licref-missing", "licref-noext", "plus-only-provided"]
+           "wrongcase", "licref-missing", "licref-noext", "plus-only-provided", "emptycop"]
 
 
 def inject(rng, case, kind):
@@ -660,6 +676,11 @@ def inject(rng, case, kind):
         add_expr(f, K("EUPL-1.2"))
         if not any(h.startswith("EUPL-1.2") for h in have):
             case["lic"].append("EUPL-1.2+.txt")
+    elif kind == "emptycop":
+        # REUSE.toml says `SPDX-FileCopyrightText = ""` (or `[""]`) for the file and nothing else supplies a notice
+        if case["glob"] in ("none", "toml") and f["exprs"]:
+            case["glob"] = "toml"
+            f["how"], f["cop"], f["emptycop"] = "global", 0, rng.choice(['""', '[""]'])
     elif kind == "nocop":
         f["cop"] = 0
         if f["how"] == "header+global":
